@@ -80,6 +80,9 @@ async def scenario(client, cfg, order):
     shape, n, awaitmode, cons = cfg["shape"], cfg["n"], cfg["await"], cfg["cons"]
     F.GATES.clear()
     del F.STARTED[:]
+    F.FAIL.clear()
+    if cfg.get("fail"):
+        F.FAIL.add(cfg["fail"])
     loop = asyncio.get_event_loop()
     log = aprobe.Log(loop)
     src = Stream(asynchronous=True)
@@ -109,6 +112,13 @@ async def scenario(client, cfg, order):
                 state.setdefault("d2e", {})[e["d"]] = ev[-1]["e"]
             elif k == "cons_done" and cons != "sync":
                 ev.append({"ev": "ConsumerDone", "e": state["d2e"].get(e["d"], -1)})
+            elif k == "retain" and e["site"].endswith("gather.update") and e["tag"] in state.setdefault("gcalled", set()):
+                pass      # (a tuple built from two branches of one element carries its tag twice)
+            elif k == "retain" and e["site"].endswith("gather.update"):
+                state["gcalled"].add(e["tag"])
+                # gather.update has been called for this element (it retains first thing): the order of these calls is
+                # the order in which results must be passed on
+                ev.append({"ev": "GatherCall", "e": e["tag"]})
             elif k == "release" and e["site"].endswith("buffer.cb" if shape == "map_buffer" else "scatter.update"):
                 # the release that ends the element's stay in the segment (with a buffer in between, scatter hands
                 # its reference over to the buffer as soon as the element is queued)
@@ -116,7 +126,7 @@ async def scenario(client, cfg, order):
             elif k == "release" and e["fired"]:
                 ev.append({"ev": "FiredElsewhere", "e": e["tag"], "site": e["site"]})
             elif k == "emit_done":
-                ev.append({"ev": "EmitDone" if not e.get("exc") else "EmitRaised", "e": e["e"]})
+                ev.append({"ev": "EmitDone" if not e.get("exc") else "EmitRaised", "e": e["e"], "exc": e.get("exc") or ""})
         state["nlog"] = len(log.ev)
 
     async def settle(cond=None, rounds=400):
@@ -135,8 +145,13 @@ async def scenario(client, cfg, order):
             aprobe.do_emit(log, src, e, VALUES[e], [tags[e]])
             if awaitmode:
                 fut = log.emits[e]
-                while fut is not None and not fut.done():
+                for _ in range(4000):         # (bounded: an emit that never completes is reported, not waited for)
+                    if fut is None or fut.done():
+                        break
                     await asyncio.sleep(0.002)
+                else:
+                    state["stuck"] = e
+                    return
                 log.poll()
 
     ptask = asyncio.ensure_future(producer())
@@ -144,11 +159,18 @@ async def scenario(client, cfg, order):
         # let the task of element e start, then let it finish
         await settle(lambda e=e: e in F.STARTED or ptask.done() and e in F.STARTED, rounds=200)
         drain()
-        ev.append({"ev": "TaskFinish", "e": e})
+        ev.append({"ev": "TaskFail" if e in F.FAIL else "TaskFinish", "e": e})
         F.gate(e).set()
         await settle(rounds=4)
     await ptask
-    await settle(lambda: all(e in log.emit_done for e in range(1, n + 1)), rounds=600)
+    if "stuck" in state:
+        drain()
+        ev.append({"ev": "Stuck", "e": state["stuck"]})
+    # the run is over when every emit has completed and every element that did not fail has been let go of by the whole
+    # segment (a buffer completes the emits long before that); bounded, so that a stuck pipeline is reported, not waited for
+    await settle(lambda: all(e in log.emit_done for e in range(1, n + 1)) and not log.pending
+                 and all(tags[e]["ref"].count == 0 for e in tags if VALUES[e] not in F.FAIL), rounds=1500)
+    await settle(rounds=3)
     drain()
     ev.append({"ev": "End"})
     got = [e["e"] for e in ev if e["ev"] == "Deliver"]
@@ -221,6 +243,7 @@ async def obs_scenario(client, cfg, order):
     shape, n, awaitmode, cons = cfg["shape"], cfg["n"], cfg["await"], cfg["cons"]
     F.GATES.clear()
     del F.STARTED[:]
+    F.FAIL.clear()
     expected, held = obs_twin(shape, n)
     plan = _plan(shape, n)
     loop = asyncio.get_event_loop()
@@ -276,8 +299,9 @@ async def obs_scenario(client, cfg, order):
         F.gate(v).set()
         await settle(rounds=4)
     await ptask
-    await settle(lambda: all(e in log.emit_done for e in plan), rounds=600)
-    await settle(rounds=6)
+    await settle(lambda: all(e in log.emit_done for e in plan) and not log.pending
+                 and all(tags[e]["ref"].count == 0 for e in tags if e not in held), rounds=1500)
+    await settle(rounds=3)
     drain()
     ev.append({"ev": "End"})
     del probe
@@ -301,6 +325,16 @@ async def amain(a):
                     for order in perms:
                         cfg = {"shape": shape, "n": n, "await": awaitmode, "cons": cons}
                         runs.append(await asyncio.wait_for(scenario(client, cfg, order), 60))
+        # a task raises on the cluster: the emit of that element raises, the others are delivered as if it had not been sent
+        for shape in ("map", "map_map"):
+            for awaitmode in (True, False):
+                for fail in (1, 2, 3):
+                    perms = [tuple(range(1, n + 1))] if awaitmode else list(itertools.permutations(range(1, n + 1)))
+                    if a.tier == "quick" and not awaitmode:
+                        perms = [perms[0], perms[-1], rng.choice(perms[1:-1])]
+                    for order in perms:
+                        cfg = {"shape": shape, "n": n, "await": awaitmode, "cons": "future", "fail": fail}
+                        runs.append(await asyncio.wait_for(scenario(client, cfg, order), 90))
         obs = []
         for shape in OBS:
             for awaitmode in (True, False):
